@@ -99,6 +99,9 @@ def param_write_summaries(P):
         for f in P.functions():
             for c in f.calls():
                 g = P.resolve(f, c.callee)
+                tgts = None
+                if g is None and c.callee is None:
+                    tgts = common.indirect_targets(P, f, c)
                 for k, a in enumerate(c.a):
                     for i in arg_roots(f, a):
                         if not f.params[i][1].endswith('*') or i in W[f]:
@@ -106,7 +109,10 @@ def param_write_summaries(P):
                         # only the pointer itself (not a value loaded through it) carries the capability
                         if f.path(a)[0][0] == 'load':
                             continue
-                        if g is None:
+                        if g is None and tgts:
+                            if any(k in W[t] for t in tgts):
+                                W[f].add(i); changed = True
+                        elif g is None:
                             if (c.callee or '').startswith('llvm.') and not (c.callee or '').startswith(('llvm.mem',)):
                                 continue
                             if (c.callee or '').startswith(('llvm.memcpy', 'llvm.memmove')) and k == 1:
